@@ -52,6 +52,7 @@ type Stats struct {
 	Summaries     int
 	SummaryAborts int
 	NontrivPaths  int
+	EnumDecided   int
 }
 
 type Exec struct {
@@ -83,8 +84,14 @@ type Exec struct {
 	ghost        map[string]int64
 	ghostTerm    map[string]*Term
 	hashBuf      map[*Value][]Value
+	durSecs      map[*Term]Sc
 	top          *frame
 	model        map[string]uint64 // a satisfying assignment of pc (by smt var name), or nil
+	domains      map[*Term]*[4]uint64
+	domUndo      []domUndo
+	pcS          []*Term // the part of pc kept on the solver's assertion stack (multi-variable conjuncts)
+	pcSLen       []int
+	domTerms     map[domKey]*Term
 	maxDepthAll  int
 	timers       []Value
 
@@ -194,11 +201,151 @@ func (e *Exec) ensureInit(pkg *ssa.Package) {
 
 // ---------- decisions ----------
 
-func (e *Exec) pushPC(t *Term) { e.pc = append(e.pc, t) }
+type domUndo struct {
+	pcLen int
+	v     *Term
+	old   *[4]uint64
+}
+
+func (e *Exec) pushPC(t *Term) {
+	e.pc = append(e.pc, t)
+	defer func() { e.pcSLen = append(e.pcSLen, len(e.pcS)) }()
+	if v := t.SingleSmallVar(); v == nil || e.P.cfg.NoEnum {
+		e.pcS = append(e.pcS, t)
+	}
+	if v := t.SingleSmallVar(); v != nil {
+		old := e.domains[v]
+		nd := e.domainOf(v)
+		for k := 0; k < 1<<v.W; k++ {
+			if nd[k>>6]&(1<<(uint(k)&63)) == 0 {
+				continue
+			}
+			if evalWith(t, v, uint64(k)) == 0 {
+				nd[k>>6] &^= 1 << (uint(k) & 63)
+			}
+		}
+		e.domUndo = append(e.domUndo, domUndo{len(e.pc), v, old})
+		e.domains[v] = &nd
+	}
+}
+
+// truncPC cuts the path condition back to n conjuncts and restores the byte domains accordingly.
+func (e *Exec) truncPC(n int) {
+	for len(e.domUndo) > 0 && e.domUndo[len(e.domUndo)-1].pcLen > n {
+		u := e.domUndo[len(e.domUndo)-1]
+		e.domUndo = e.domUndo[:len(e.domUndo)-1]
+		if u.old == nil {
+			delete(e.domains, u.v)
+		} else {
+			e.domains[u.v] = u.old
+		}
+	}
+	e.pc = e.pc[:n]
+	e.pcSLen = e.pcSLen[:n]
+	if n == 0 {
+		e.pcS = e.pcS[:0]
+	} else {
+		e.pcS = e.pcS[:e.pcSLen[n-1]]
+	}
+}
+
+// domTerm is the conjunction of the byte-domain constraints (the single-variable part of the path condition).
+func (e *Exec) domTerm() *Term {
+	res := e.ctx.True
+	if e.P.cfg.NoEnum {
+		return res
+	}
+	vars := make([]*Term, 0, len(e.domains))
+	for v := range e.domains {
+		vars = append(vars, v)
+	}
+	sort.Slice(vars, func(i, j int) bool { return vars[i].ID < vars[j].ID })
+	for _, v := range vars {
+		d := e.domains[v]
+		key := domKey{v, *d}
+		t, ok := e.domTerms[key]
+		if !ok {
+			n := 1 << v.W
+			t = e.ctx.False
+			for k := 0; k < n; {
+				if d[k>>6]&(1<<(uint(k)&63)) == 0 {
+					k++
+					continue
+				}
+				lo := k
+				for k < n && d[k>>6]&(1<<(uint(k)&63)) != 0 {
+					k++
+				}
+				hi := k - 1
+				var r *Term
+				if lo == hi {
+					r = e.ctx.Eq(v, e.ctx.BV(uint64(lo), v.W))
+				} else {
+					r = e.ctx.And(e.ctx.Ule(e.ctx.BV(uint64(lo), v.W), v), e.ctx.Ule(v, e.ctx.BV(uint64(hi), v.W)))
+				}
+				t = e.ctx.Or(t, r)
+			}
+			e.domTerms[key] = t
+		}
+		res = e.ctx.And(res, t)
+	}
+	return res
+}
+
+type domKey struct {
+	v *Term
+	d [4]uint64
+}
+
+// domainOf returns (a copy of) the set of values of a small variable allowed by the single-variable conjuncts of pc.
+func (e *Exec) domainOf(v *Term) [4]uint64 {
+	if d, ok := e.domains[v]; ok {
+		return *d
+	}
+	var d [4]uint64
+	n := 1 << v.W
+	for k := 0; k < n; k++ {
+		d[k>>6] |= 1 << (uint(k) & 63)
+	}
+	return d
+}
+
+func evalWith(t *Term, v *Term, val uint64) uint64 {
+	return t.Eval(map[string]uint64{v.Name: val}, map[*Term]uint64{})
+}
+
+// enumBranch decides the feasibility of both outcomes of a condition that depends on one small variable only,
+// by enumerating the values the path condition's single-variable conjuncts allow (an over-approximation of the
+// feasible values: sound for exploration; obligations are always decided by the solver under the full pc).
+func (e *Exec) enumBranch(c *Term, v *Term) (canT, canF bool) {
+	d := e.domainOf(v)
+	n := 1 << v.W
+	for k := 0; k < n && !(canT && canF); k++ {
+		if d[k>>6]&(1<<(uint(k)&63)) == 0 {
+			continue
+		}
+		if evalWith(c, v, uint64(k)) != 0 {
+			canT = true
+		} else {
+			canF = true
+		}
+	}
+	e.stats.EnumDecided++
+	return
+}
 
 func (e *Exec) check(extra *Term, timeout int, vars []*Term) (SatResult, map[string]uint64) {
 	e.stats.Queries++
-	r, m := e.solver.Check(e.pc, extra, timeout, vars)
+	dt := e.domTerm()
+	if extra == nil {
+		extra = dt
+	} else {
+		extra = e.ctx.And(extra, dt)
+	}
+	if extra.Op == OpConst && extra.K == 0 {
+		return Unsat, nil
+	}
+	r, m := e.solver.Check(e.pcS, extra, timeout, vars)
 	if r == Unknown {
 		e.stats.Unknowns++
 	}
@@ -249,6 +396,36 @@ func (e *Exec) branch(c Sc) bool {
 	e.stats.Branches++
 	tT := c.T
 	tF := e.ctx.Not(c.T)
+	if v := tT.SingleSmallVar(); v != nil && e.P.cfg.NoEnum == false {
+		canT, canF := e.enumBranch(tT, v)
+		switch {
+		case !canT && !canF:
+			panic(pathEnd{endInfeasible, "empty byte domain"})
+		case !canT:
+			d.prefix = append(d.prefix, decision{val: false, forced: true})
+			d.pos++
+			return false
+		case !canF:
+			d.prefix = append(d.prefix, decision{val: true, forced: true})
+			d.pos++
+			return true
+		}
+		alt := make([]decision, d.pos+1)
+		copy(alt, d.prefix[:d.pos])
+		alt[d.pos] = decision{val: false, forced: false}
+		if d.alts != nil {
+			*d.alts = append(*d.alts, alt)
+		} else {
+			e.sched.push(e.id, alt)
+		}
+		d.prefix = append(d.prefix, decision{val: true, forced: false})
+		d.pos++
+		e.pushPC(tT)
+		if ok, have := e.evalModel(tT); have && !ok {
+			e.model = nil
+		}
+		return true
+	}
 	canT, canF := false, false
 	var mT, mF map[string]uint64
 	if v, ok := e.evalModel(tT); ok {
@@ -496,6 +673,13 @@ func (e *Exec) runPath(prefix []decision, entry *ssa.Function) (out pathOutcome)
 	e.dec = &decider{prefix: prefix}
 	e.local = nil
 	e.pc = e.pc[:0]
+	e.domains = map[*Term]*[4]uint64{}
+	e.domUndo = e.domUndo[:0]
+	e.pcS = e.pcS[:0]
+	e.pcSLen = e.pcSLen[:0]
+	if e.domTerms == nil {
+		e.domTerms = map[domKey]*Term{}
+	}
 	e.steps = 0
 	e.maxDepthSeen = 0
 	e.varCount = map[string]int{}
@@ -506,6 +690,7 @@ func (e *Exec) runPath(prefix []decision, entry *ssa.Function) (out pathOutcome)
 	e.ghost = map[string]int64{}
 	e.ghostTerm = map[string]*Term{}
 	e.hashBuf = map[*Value][]Value{}
+	e.durSecs = map[*Term]Sc{}
 	e.locks = map[*Value]int{}
 	e.timers = nil
 	e.top = nil
